@@ -122,7 +122,7 @@ def switchValue (t : Nat) : List (Key × Nat) → Nat
 /-- `mux(sel, val1, val0) = switch_value(sel, [(0, val0), (None, val1)])` -/
 def mux (sel val1 val0 : Nat) : Nat := switchValue sel [(some [0], val0), (none, val1)]
 
-/-! ### mod_incr / mod_add (functions.py:47-68) -/
+/-! ### mod_incr / mod_add (functions.py:47-68; `mod_add` as of commit 656ad56: case `mod+i ↦ i % mod`) -/
 
 def modIncr (sig mod : Nat) : Nat :=
   if mod &&& (mod - 1) = 0 then (sig + 1) &&& (mod - 1)
@@ -131,6 +131,6 @@ def modIncr (sig mod : Nat) : Nat :=
 def modAdd (sig mod incr maxIncr : Nat) : Nat :=
   if mod &&& (mod - 1) = 0 then (sig + incr) &&& (mod - 1)
   else switchValue (sig + incr)
-    ((List.range maxIncr).map (fun i => (some [mod + i], i)) ++ [(none, sig + incr)])
+    ((List.range maxIncr).map (fun i => (some [mod + i], i % mod)) ++ [(none, sig + incr)])
 
 end TxV.Bits
